@@ -230,6 +230,19 @@ func char(s string, position int) string {
 	return c
 }
 
+// endsOperand reports whether the last token ends an operand, in which case a
+// following '-' is the subtraction operator and not the sign of a literal.
+func endsOperand(tokens []Token) bool {
+	if len(tokens) == 0 {
+		return false
+	}
+	switch tokens[len(tokens)-1].tokenType {
+	case IDENTIFIER, NUMBER_LITERAL, STRING_LITERAL, BOOL_LITERAL, NIL_LITERAL, CLOSING_ROUND_BRACKET, CLOSING_SQUARE_BRACKET:
+		return true
+	}
+	return false
+}
+
 func Tokenize(source string) ([]Token, error) {
 	var err error = nil
 	tokens := []Token{}
@@ -313,7 +326,7 @@ func Tokenize(source string) ([]Token, error) {
 			// Create bool token.
 			token = newToken(match, BOOL_LITERAL, ogRow, ogColumn)
 			i += len(match)
-		} else if match := regexp.MustCompile(`^-?\d+(\.\d+)?`).FindString(source[i:]); match != "" {
+		} else if match := regexp.MustCompile(`^-?\d+(\.\d+)?`).FindString(source[i:]); match != "" && !(match[0] == '-' && endsOperand(tokens)) {
 			// Create number token.
 			token = newToken(match, NUMBER_LITERAL, ogRow, ogColumn)
 			i += len(match)
